@@ -141,13 +141,28 @@ def fieldTexts : List Name → List String → List String
   | n :: ns, t :: ts => (n ++ ": " ++ t) :: fieldTexts ns ts
   | _, _ => []
 
+/-- `pretty_print::escape_numbat_string` -/
+def escapeChars : List Char → List Char
+  | [] => []
+  | c :: cs =>
+    (if c == '\n' then ['\\', 'n']
+     else if c == '\r' then ['\\', 'r']
+     else if c == '\t' then ['\\', 't']
+     else if c == '"' then ['\\', '"']
+     else if c == Char.ofNat 0 then ['\\', '0']
+     else if c == '{' || c == '}' || c == '\\' then [c, c]
+     else [c]) ++ escapeChars cs
+
+def escapeStr (s : String) : String := String.ofList (escapeChars s.toList)
+
 mutual
-/-- `impl Display for Value` (strings quoted; same text as `pretty_print` for strings without
-    characters that need escaping) -/
-def Value.display {ν : Type} (S : Sem ν) : Value ν → String
+/-- Text of a value. `esc = false`: `impl Display for Value` (used by `Op::JoinString`), a nested string
+    is quoted as it is. `esc = true`: `Value::pretty_print` as plain text (used by `print`), a nested
+    string is quoted and escaped. -/
+def Value.display {ν : Type} (S : Sem ν) (esc : Bool) : Value ν → String
   | .num x => S.fmt x
   | .bool b => if b then "true" else "false"
-  | .str s => "\"" ++ s ++ "\""
+  | .str s => "\"" ++ (if esc then escapeStr s else s) ++ "\""
   | .fnref false n => "<function: " ++ n ++ ">"
   | .fnref true n => "<builtin function: " ++ n ++ ">"
   | .fmtspec _ => "<format specfiers>"
@@ -155,19 +170,25 @@ def Value.display {ν : Type} (S : Sem ν) : Value ν → String
     info.name ++ " {" ++
       (match vs with
        | [] => ""
-       | _ :: _ => " " ++ joinSep ", " (fieldTexts info.fields (Value.displayL S vs)) ++ " ") ++ "}"
-  | .list xs => "[" ++ joinSep ", " (Value.displayL S xs) ++ "]"
-def Value.displayL {ν : Type} (S : Sem ν) : List (Value ν) → List String
+       | _ :: _ => " " ++ joinSep ", " (fieldTexts info.fields (Value.displayL S esc vs)) ++ " ") ++ "}"
+  | .list xs => "[" ++ joinSep ", " (Value.displayL S esc xs) ++ "]"
+def Value.displayL {ν : Type} (S : Sem ν) (esc : Bool) : List (Value ν) → List String
   | [] => []
-  | v :: vs => Value.display S v :: Value.displayL S vs
+  | v :: vs => Value.display S esc v :: Value.displayL S esc vs
 end
 
-/-- `to_str` inside `Op::JoinString` (and `print`): a string is shown without quotes. `none` for
-    format specifiers (`unreachable!()` in the Rust code). -/
+/-- `to_str` inside `Op::JoinString`: a string is shown without quotes. `none` for format specifiers
+    (`unreachable!()` in the Rust code). -/
 def Value.toStr {ν : Type} (S : Sem ν) : Value ν → Option String
   | .str s => some s
   | .fmtspec _ => none
-  | v => some (Value.display S v)
+  | v => some (Value.display S false v)
+
+/-- what the procedure `print` hands to `print_fn`: a string as it is, anything else pretty-printed -/
+def Value.printText {ν : Type} (S : Sem ν) : Value ν → Option String
+  | .str s => some s
+  | .fmtspec _ => none
+  | v => some (Value.display S true v)
 
 /-! ### Expressions and statements -/
 
@@ -513,7 +534,7 @@ def execStmt {ν : Type} (S : Sem ν) (T : Table ν) (fuel : Nat) (st : TopState
   | .proc .print [] => .ok { st' with out := st.out ++ [""] }
   | .proc .print [e] =>
     (eval S T fuel st.env e).bind fun v =>
-      match v.toStr S with
+      match v.printText S with
       | some t => .ok { st' with out := st.out ++ [t] }
       | none => .panic "print of format specifiers"
   | .proc .assert [e] =>
